@@ -214,7 +214,10 @@ def coherence_problems(model, tol=1e-7):
                     bad.append("stored marginals on %s differ from the marginals of the stored parameters (max diff %.3g)" % (
                         cl, float(np.nanmax(np.abs(a - b))) if a.shape == b.shape else float("nan")))
                     break
-        joint = model.datavector(flatten=False)
+        joint = np.asarray(model.datavector(flatten=False))
+        if tuple(joint.shape) != tuple(model.domain.shape):
+            bad.append("datavector(flatten=False) has shape %s, the domain's is %s" % (tuple(joint.shape), tuple(model.domain.shape)))
+            joint = joint.reshape(tuple(model.domain.shape)) if joint.size == int(np.prod(model.domain.shape)) else np.full(tuple(model.domain.shape), np.nan)
         answers = {}
         for s in all_subsets(attrs):
             try:
@@ -233,7 +236,9 @@ def coherence_problems(model, tol=1e-7):
             else:
                 ax = tuple(i for i, a in enumerate(attrs) if a not in s)
                 want = joint.sum(axis=ax)
-                if not np.allclose(v, want, rtol=1e-6, atol=tol * total):
+                if v.shape != want.shape:
+                    bad.append("project(%s) has shape %s, expected %s" % (s, v.shape, want.shape))
+                elif not np.allclose(v, want, rtol=1e-6, atol=tol * total):
                     bad.append("project(%s) disagrees with the model's own joint (max diff %.3g of total %g)" % (
                         s, float(np.max(np.abs(v - want))), total))
         if not np.all(np.isfinite(joint)) or abs(joint.sum() - total) > 1e-8 * total or joint.min() < -1e-12 * total:
